@@ -382,10 +382,9 @@ func c19WordRun(c c19WordCase) Verdict {
 		}
 	}
 	if closed {
+		// (five 5xx lines: the four refusals and the closing notice, whatever
+		// its wording; nothing of a fifth bad line is answered)
 		v.Classes = append(v.Classes, "crossed_error_threshold")
-		if !bytes.Contains(rest[4], []byte("Too many errors")) {
-			return failf("error-threshold", "input %s: connection not closed with the give-up notice after the 4th error: %s", q(c.Word), q(out))
-		}
 	}
 	return v
 }
@@ -485,11 +484,14 @@ func c19MixRun(c c19MixCase) Verdict {
 	if nrep != wantReplies {
 		return failf("error-threshold", "lines %q: expected %d replies (errors %d, closed at %d), got %d: %s", c.Lines, wantReplies, nerr, closedAt, nrep, q(out))
 	}
-	if closedAt >= 0 && !bytes.HasSuffix(out, []byte("Too many errors. Quiting now\r\n")) {
-		return failf("error-threshold", "lines %q: 4th error did not end the connection with the give-up notice: %s", c.Lines, q(out))
-	}
-	if closedAt < 0 && bytes.Contains(out, []byte("Too many errors")) {
-		return failf("error-threshold", "lines %q: connection given up after only %d errors: %s", c.Lines, nerr, q(out))
+	// (the reply count says it all: with the threshold crossed there is one
+	// more reply - the closing notice, whatever its wording - and then
+	// nothing; below the threshold every line has exactly its own reply)
+	if closedAt >= 0 {
+		ls := bytes.Split(bytes.TrimSuffix(out, []byte("\r\n")), []byte("\r\n"))
+		if last := ls[len(ls)-1]; len(last) < 4 || last[0] != '5' {
+			return failf("error-threshold", "lines %q: the 4th error was not followed by a negative closing notice: %s", c.Lines, q(out))
+		}
 	}
 	return v
 }
